@@ -1,51 +1,25 @@
-//! scratch probe: reduced-size encodings (RFC 7011 6.2) of float64 and of the projected elements
-use netflow_parser::{NetflowPacket, NetflowParser};
-use nfv::wire::*;
-
-fn ipfix(body: &[u8]) -> Vec<u8> {
-    let mut w = W::default();
-    enc_ipfix_header(&mut w, (16 + body.len()) as u16, &[1, 2, 3]);
-    w.bytes(body);
-    w.0
-}
-fn v9(count: u16, body: &[u8]) -> Vec<u8> {
-    let mut w = W::default();
-    enc_v9_header(&mut w, count, &[1, 2, 3, 4]);
-    w.bytes(body);
-    w.0
-}
-fn tpl(proto: Proto, id: u16, fields: &[(u16, u16)]) -> Vec<u8> {
-    let d = Def { kind: Kind::Plain, scope_n: 0, fields: fields.iter().map(|(ie, len)| FieldSpec { ie: *ie, len: *len, ent: None }).collect() };
-    let mut r = W::default();
-    enc_template_record(&mut r, proto, id, &d);
-    let mut s = W::default();
-    enc_set(&mut s, template_set_id(proto, Kind::Plain), &r.0, 0);
-    s.0
-}
-fn data(id: u16, body: &[u8]) -> Vec<u8> {
-    let mut s = W::default();
-    enc_set(&mut s, id, body, 0);
-    s.0
-}
+//! scratch probe: CPU time of C15 families at several sizes
+use nfv::props::c15::family;
 fn main() {
-    // float64 element 311 sent as 4 bytes, followed by a 2-byte port
-    let mut p = NetflowParser::default();
-    let mut b = tpl(Proto::Ipfix, 256, &[(311, 4), (7, 2)]);
-    b.extend(data(256, &[0x3f, 0x80, 0, 0, 0x12, 0x34, 0x40, 0, 0, 0, 0x56, 0x78]));
-    let r = p.parse_bytes(&ipfix(&b));
-    println!("float64 as 4 bytes: {}", serde_json::to_string(&r).unwrap());
-    // reduced-size projected elements: port in 1 byte, sysUpTime in 2, protocol in 1
-    for (name, proto) in [("ipfix", Proto::Ipfix), ("v9", Proto::V9)] {
-        let mut p = NetflowParser::default();
-        let mut b = tpl(proto, 300, &[(7, 1), (11, 4), (22, 2), (21, 8), (4, 1), (8, 4)]);
-        b.extend(data(300, &[80, 0, 0, 1, 187, 0x10, 0x00, 0, 0, 0, 0, 0, 0, 0x20, 0x00, 6, 10, 0, 0, 1]));
-        let pkt = match proto { Proto::Ipfix => ipfix(&b), Proto::V9 => v9(2, &b) };
-        let r = p.parse_bytes(&pkt);
-        for e in &r {
-            match e {
-                NetflowPacket::Error(x) => println!("{} error {:?}", name, x.error),
-                _ => println!("{} common: {:?}", name, e.as_netflow_common().map(|c| c.flowsets)),
+    let args: Vec<String> = std::env::args().collect();
+    let name = &args[1];
+    for n in [2000usize, 4000, 8000, 16000, 32000, 65000] {
+        let Some((pre, b)) = family(name, n) else { return };
+        let mut best = f64::MAX;
+        for _ in 0..5 {
+            let mut p = netflow_parser::NetflowParser::default();
+            for c in &pre {
+                p.parse_bytes(c);
             }
+            let t0 = std::time::Instant::now();
+            let r = p.parse_bytes(&b);
+            let dt = t0.elapsed().as_secs_f64();
+            let t1 = std::time::Instant::now();
+            drop(r);
+            let dd = t1.elapsed().as_secs_f64();
+            best = best.min(dt);
+            if n == 65000 { eprintln!("   parse {:.2} ms drop {:.2} ms", dt * 1e3, dd * 1e3); }
         }
+        println!("{} n={} buf={} best={:.3} ms  per-unit={:.1} ns", name, n, b.len(), best * 1e3, best * 1e9 / n as f64);
     }
 }
